@@ -4,7 +4,7 @@
    parsed strictly and canonicalised.  The case record carries the reacting species' own data as the driver knows them
    independently (mass number from composition, binding energy by the documented lookup order, yield). *)
 EXTENDS GrainLaws, Json, IOUtils, TLCExt
-VARIABLES tid, l, explicit, user      \* explicit / user: binding energy set on the object / in the user table (0 = not set)
+VARIABLES tid, l, explicit, user      \* explicit / user: binding energy set on the object / in the user table (0 = not set); thousandths of a kelvin
 JTrace == JsonDeserialize(IOEnv.TRACE_FILE)
 Traces == JTrace.traces
 NT     == Len(Traces)
@@ -17,6 +17,8 @@ TEb ==
   /\ Traces[tid].kind = "eb" /\ l <= Len(Traces[tid].ev) /\ l' = l + 1 /\ UNCHANGED tid
   /\ LET e == Traces[tid].ev[l] IN
      CASE e.op = "read" -> Chk("BindingEnergyLookupOrder", e.value = Lookup(Traces[tid].table)) /\ UNCHANGED <<explicit, user>>
+       \* the constant eb_<species> the generated naunet_constants.cpp defines for a network read under the tables as they are now
+       [] e.op = "emitted" -> Chk("EmittedConstantIsTheLookup", e.value = Lookup(Traces[tid].table)) /\ UNCHANGED <<explicit, user>>
        [] e.op = "user" -> user' = e.value /\ UNCHANGED explicit
        [] e.op = "explicit" -> explicit' = e.value /\ UNCHANGED user
 TCase ==
